@@ -466,5 +466,5 @@ def run(args):
                        "properties (single, combination of 2/3, nested), semantic annotations on any subset, any order; X: secondary suffix element. Per case: ParseStatement's tree against the attachment "
                        "read off the written statement (per value: private list in order; shared rest in order), against Model/Priv.v applied to the denotation, and tabular cells/references/annotation "
                        "column per row, visual property children per value (tree mode), flat labels and 'anno' members. Non-trivial = accepted statements.",
-                       [texts[0], texts[len(texts) // 2]], {"distribution": dist, "endpoint_level": len(reqs), "exhaustive": "matchings of 3x3 for the generated pairs; source orders sampled"})
+                       [texts[0], texts[len(texts) // 2]], {"distribution": dist, "endpoint_level": len(reqs), "exhaustive": False, "exhaustive_part": "matchings of 3 properties x 3 annotations for the generated pairs; source orders sampled"})
     return V.finish(cov, po["assumptions"])
